@@ -9,6 +9,7 @@ Definition serr_code (e : serr) : N :=
   match e with
   | DirUnderFile => 1 | EmptyPath => 2 | NotPlainFileOrDir => 3 | PathIsAbsolute => 4
   | InvalidPathComponent => 5 | NotPlainFile => 6 | Subdir => 7 | InvalidImage => 8 | Io => 9
+  | PathNotUnicode => 10
   end.
 Definition oerr_code (o : option serr) : N := match o with None => 0 | Some e => serr_code e end.
 
